@@ -19,6 +19,7 @@ import (
 	"crypto/tls"
 	"crypto/x509"
 	"crypto/x509/pkix"
+	"encoding/base64"
 	"encoding/json"
 	"fmt"
 	"io"
@@ -224,19 +225,21 @@ func c13NewWorld() *c13World {
 	pa, pb := hworld.PinOf(w.servers["A"].chain[0]), hworld.PinOf(w.servers["B"].chain[0])
 	ps := hworld.PinOf(w.servers["S"].chain[0])
 	w.pins = map[string]string{
-		"pinS":            ps,
-		"prefixed-pinS":   "sha256//" + ps,
-		"pinA":            pa,
-		"pinB":            pb,
-		"prefixed-pinA":   "sha256//" + pa,
-		"unpadded-pinA":   strings.TrimRight(pa, "="),
-		"31-bytes":        "AAAAAAAAAAAAAAAAAAAAAAAAAAAAAAAAAAAAAAAAAA==",
-		"33-bytes":        "AAAAAAAAAAAAAAAAAAAAAAAAAAAAAAAAAAAAAAAAAAAA",
-		"not-base64":      "!!!not base64!!!",
-		"prefix-only":     "sha256//",
-		"double-prefix":   "sha256//sha256//" + pa,
-		"pinA-whitespace": pa + " ",
-		"none":            "",
+		"pinS":               ps,
+		"prefixed-pinS":      "sha256//" + ps,
+		"pinA":               pa,
+		"pinB":               pb,
+		"prefixed-pinA":      "sha256//" + pa,
+		"unpadded-pinA":      strings.TrimRight(pa, "="),
+		"31-bytes":           "AAAAAAAAAAAAAAAAAAAAAAAAAAAAAAAAAAAAAAAAAA==",
+		"pinA-then-1-byte":   longerPin(pa, 1),
+		"pinA-then-32-bytes": longerPin(pa, 32),
+		"33-bytes":           "AAAAAAAAAAAAAAAAAAAAAAAAAAAAAAAAAAAAAAAAAAAA",
+		"not-base64":         "!!!not base64!!!",
+		"prefix-only":        "sha256//",
+		"double-prefix":      "sha256//sha256//" + pa,
+		"pinA-whitespace":    pa + " ",
+		"none":               "",
 	}
 	w.pinKey = map[string]string{"pinA": "A", "pinB": "B", "prefixed-pinA": "A", "pinS": "S", "prefixed-pinS": "S"}
 	return w
@@ -589,4 +592,11 @@ func c13Replay(kind string, raw json.RawMessage) int {
 	}
 	fmt.Println("not reproduced")
 	return 0
+}
+
+// longerPin returns the base64 of the pinned hash followed by extra bytes:
+// not a fingerprint.
+func longerPin(pin string, extra int) string {
+	b, _ := base64.StdEncoding.DecodeString(pin)
+	return base64.StdEncoding.EncodeToString(append(b, make([]byte, extra)...))
 }
